@@ -110,18 +110,22 @@ func (s *Entry) newChildLogger(args ...any) *Entry {
 	}
 
 	var name string
-	var ok bool
+	var ok, generated bool
 	if len(args) == 0 {
-		name = stringtool.RandomStringPure(6)
+		name, generated = stringtool.RandomStringPure(6), true
 	} else if name, ok = args[0].(string); !ok || name == "" {
-		name = stringtool.RandomStringPure(6)
+		name, generated = stringtool.RandomStringPure(6), true
 	}
 	if l, ok := s.items[name]; ok {
 		return l
 	}
 
-	s.items[name] = newentry(s, args...)
-	return s.items[name]
+	l := newentry(s, args...)
+	if generated {
+		l.name = name // an anonymous child carries the name it is indexed under, so that New(child.Name()) finds it
+	}
+	s.items[name] = l
+	return l
 }
 
 func (s *Entry) Each(cb func(l *Entry, depth int)) {
